@@ -9,11 +9,11 @@ namespace Echse.Ical
 /-- the part of the buffer not looked at yet -/
 def rest (p : Parser) : List Byte := p.buf.drop p.bix
 
-/-- the automaton keeps the unfolded line in full; the parser has it in the stash as long as it fits, and
-the mark `skip` with an empty stash from then on -/
+/-- the automaton keeps the unfolded line in full, and so does the parser in its stash (which grows); the
+mark `skip` (allocation failure in the C code) is never set -/
 structure Rel (p : Parser) (A : Abs) : Prop where
-  fits : A.cur.length < stashSize → p.skip = false ∧ p.stash = A.cur
-  over : stashSize ≤ A.cur.length → p.skip = true ∧ p.stash = []
+  skip : p.skip = false
+  stash : p.stash = A.cur
   comp : p.comp = A.comp
   log : p.log = A.log
   mark : p.eolp = true ↔ A.sc.pend = true
@@ -68,20 +68,13 @@ theorem book_proc (q0 : Parser) (acc : List Instr) :
     dsimp only
     split <;> rfl
 
-theorem flushA_of_ne (A : Abs) (h : A.cur ≠ []) (hfit : A.cur.length < stashSize) :
+/-- a non-empty line, of whatever length, is acted upon -/
+theorem flushA_of_ne (A : Abs) (h : A.cur ≠ []) :
     flushA A = { (procA A) with sc := {} } := by
-  unfold flushA; rw [if_neg h, if_neg (by omega)]
+  unfold flushA; rw [if_neg h]
 
 theorem flushA_of_nil (A : Abs) (h : A.cur = []) : flushA A = { A with sc := {} } := by
   unfold flushA; rw [if_pos h]
-
-theorem over_ne_nil (A : Abs) (h : stashSize ≤ A.cur.length) : A.cur ≠ [] := by
-  intro hx; rw [hx] at h; exact absurd h (Nat.not_succ_le_zero 1023)
-
-/-- a line that does not fit is passed over -/
-theorem flushA_of_over (A : Abs) (h : stashSize ≤ A.cur.length) :
-    flushA A = { A with sc := {}, cur := [] } := by
-  unfold flushA; rw [if_neg (over_ne_nil A h), if_pos h]
 
 theorem doProc_snd (q0 : Parser) : (doProc q0).2 = (procLine q0.comp q0.stash).2 := rfl
 theorem doProc_comp (q0 : Parser) : (doProc q0).1.comp = (procLine q0.comp q0.stash).1 := rfl
@@ -90,23 +83,23 @@ theorem doProc_log (q0 : Parser) :
 
 /-- `_ical_proc` plus bookkeeping is `procA` -/
 theorem bookProc_spec (q0 : Parser) (A : Abs) (hs : q0.stash = A.cur) (hc : q0.comp = A.comp)
-    (hl : q0.log = A.log) (hne : A.cur ≠ []) (hfit : A.cur.length < stashSize) (hk : q0.skip = false)
+    (hl : q0.log = A.log) (hne : A.cur ≠ []) (hk : q0.skip = false)
     (he : q0.eolp = false) :
     Rel (bookProc q0 A.ins).1 (flushA A) ∧ (bookProc q0 A.ins).2 = (flushA A).ins ∧
       (bookProc q0 A.ins).1.buf = q0.buf ∧ (bookProc q0 A.ins).1.bix = q0.bix := by
   have hmk : q0.eolp = true ↔ ({} : Sc).pend = true := by rw [he]
-  rw [flushA_of_ne A hne hfit]
+  rw [flushA_of_ne A hne]
   unfold bookProc procA
   rw [doProc_snd, doProc_comp, hs, hc]
   cases hr : (procLine A.comp A.cur).2 with
   | none =>
     simp only [hr]
-    refine ⟨⟨fun _ => ⟨hk, rfl⟩, fun h => absurd h (Nat.not_succ_le_zero 1023), ?_, ?_, hmk⟩, trivial, rfl, rfl⟩
+    refine ⟨⟨hk, rfl, ?_, ?_, hmk⟩, trivial, rfl, rfl⟩
     · rw [doProc_comp, hs, hc]
     · rw [doProc_log, hs, hl]
   | eop =>
     simp only [hr]
-    refine ⟨⟨fun _ => ⟨hk, rfl⟩, fun h => absurd h (Nat.not_succ_le_zero 1023), ?_, ?_, hmk⟩, trivial, rfl, rfl⟩
+    refine ⟨⟨hk, rfl, ?_, ?_, hmk⟩, trivial, rfl, rfl⟩
     · show ({ (doProc q0).1.comp with meth := none } : Comp) = _
       rw [doProc_comp, hs, hc]
     · show (doProc q0).1.log = _
@@ -114,43 +107,33 @@ theorem bookProc_spec (q0 : Parser) (A : Abs) (hs : q0.stash = A.cur) (hc : q0.c
   | ve =>
     simp only [hr]
     split
-    · refine ⟨⟨fun _ => ⟨hk, rfl⟩, fun h => absurd h (Nat.not_succ_le_zero 1023), ?_, ?_, hmk⟩, rfl, rfl, rfl⟩
+    · refine ⟨⟨hk, rfl, ?_, ?_, hmk⟩, rfl, rfl, rfl⟩
       · rw [doProc_comp, hs, hc]
       · rw [doProc_log, hs, hl]
-    · refine ⟨⟨fun _ => ⟨hk, rfl⟩, fun h => absurd h (Nat.not_succ_le_zero 1023), ?_, ?_, hmk⟩, ?_, rfl, rfl⟩
+    · refine ⟨⟨hk, rfl, ?_, ?_, hmk⟩, ?_, rfl, rfl⟩
       · rw [doProc_comp, hs, hc]
       · rw [doProc_log, hs, hl]
       · unfold mkInstr; rw [doProc_comp, hs, hc]
 
 /-- the label `proc:` in terms of the automaton: the pending line is flushed -/
 theorem procStep_spec (q : Parser) (A : Abs)
-    (hf : A.cur.length < stashSize → q.skip = false ∧ q.stash = A.cur)
-    (ho : stashSize ≤ A.cur.length → q.skip = true)
+    (hk : q.skip = false) (hs : q.stash = A.cur)
     (hc : q.comp = A.comp) (hl : q.log = A.log) (he : q.eolp = false) :
     ∃ q', book (procStep q) A.ins = some (q', (flushA A).ins) ∧ Rel q' (flushA A) ∧
       q'.buf = q.buf ∧ q'.bix = q.bix := by
   have hmk : q.eolp = true ↔ ({} : Sc).pend = true := by rw [he]
-  by_cases hfit : A.cur.length < stashSize
-  · obtain ⟨hk, hs⟩ := hf hfit
-    unfold procStep
-    rw [if_neg (by rw [hk]; simp)]
-    by_cases hne : q.stash.length ≠ 0
-    · rw [if_pos hne, book_proc]
-      have hcur : A.cur ≠ [] := by
-        rw [← hs]; intro hx; rw [hx] at hne; exact hne rfl
-      have hb := bookProc_spec q A hs hc hl hcur hfit hk he
-      exact ⟨(bookProc q A.ins).1, by rw [← hb.2.1], hb.1, hb.2.2.1, hb.2.2.2⟩
-    · rw [if_neg hne]
-      have hcur : A.cur = [] := by
-        rw [← hs]; exact List.eq_nil_of_length_eq_zero (by omega)
-      rw [flushA_of_nil A hcur]
-      exact ⟨q, rfl, ⟨fun _ => ⟨hk, hs⟩, fun h => absurd h (by show ¬ stashSize ≤ A.cur.length; omega),
-        hc, hl, hmk⟩, rfl, rfl⟩
-  · have hover : stashSize ≤ A.cur.length := by omega
-    have hk := ho hover
-    unfold procStep
-    rw [if_pos hk, flushA_of_over A hover]
-    exact ⟨_, rfl, ⟨fun _ => ⟨rfl, rfl⟩, fun h => absurd h (Nat.not_succ_le_zero 1023), hc, hl, hmk⟩,
-      rfl, rfl⟩
+  unfold procStep
+  rw [if_neg (by rw [hk]; simp)]
+  by_cases hne : q.stash.length ≠ 0
+  · rw [if_pos hne, book_proc]
+    have hcur : A.cur ≠ [] := by
+      rw [← hs]; intro hx; rw [hx] at hne; exact hne rfl
+    have hb := bookProc_spec q A hs hc hl hcur hk he
+    exact ⟨(bookProc q A.ins).1, by rw [← hb.2.1], hb.1, hb.2.2.1, hb.2.2.2⟩
+  · rw [if_neg hne]
+    have hcur : A.cur = [] := by
+      rw [← hs]; exact List.eq_nil_of_length_eq_zero (by omega)
+    rw [flushA_of_nil A hcur]
+    exact ⟨q, rfl, ⟨hk, hs, hc, hl, hmk⟩, rfl, rfl⟩
 
 end Echse.Ical
